@@ -146,7 +146,13 @@ def explore(ctx):
         else:
             sp = r.choice(["typing", "pipe"])
         ts = ["union", ms, {"sp": sp}]
-        ops = [{"op": "union", "ty": ts, "val": x, "members": ms} for x in r.sample(INPUTS, 10)]
+        xs = r.sample(INPUTS, 10)
+        if any(m == ["none"] for m in ms) and None not in xs:
+            xs[0] = None               # "None always honoured": every union with a None member is asked for None
+        ops = [{"op": "union", "ty": ts, "val": x, "members": ms} for x in xs]
+        # the marshal direction against the model as well (the member-by-member oracle asks the LIVE members: a member that starts
+        # to accept what it used to reject takes the oracle with it)
+        ops += [{"op": "mar", "ty": ts, "val": o_["val"], "members": ms} for o_ in ops[:10]]
         jobs.append({"prog": POOL_PROG, "ops": ops})
     real, model = core.run_jobs(jobs)
     res.programs = len(jobs)
@@ -155,6 +161,12 @@ def explore(ctx):
         case = {"ann": enc.pyexpr(op["ty"], job["prog"]), "input": op["val"]}
         res.case(case, True)
         inp = {"prog": job["prog"], "ty": op["ty"], "val": op["val"], "members": ms, **case}
+        if op["op"] == "mar":
+            if op["val"] == ["x", "binary"] or _nonfinite(op["val"]) or _nonfinite(r_.get("ok")):
+                res.count("mar:correspondence-skipped")
+            else:
+                core.compare(res, "mar", inp, r_, m_)
+            continue
         if op["val"] == ["x", "binary"]:
             res.count("um:correspondence-skipped-binary-bytes")
         elif _nonfinite(op["val"]) or _nonfinite(r_["union"].get("ok")):
